@@ -1,13 +1,16 @@
 #!/bin/bash
 # seedtest.sh <property id> <patch.diff> [demo.py]   — run a check against a seeded change WITHOUT touching /repo or
-# /verif/lean: the change is applied in the scratch worktree /tmp/wt-main, the Lean project is copied to /tmp/lean-seed.
+# /verif/lean: the change is applied in a private scratch worktree, the Lean project is copied to a private scratch dir.
 set -u
-PID=$1; PATCH=$2; DEMO=${3:-}
-WT=/tmp/wt-main
-[ -d $WT ] || { git -C /repo worktree add -q $WT HEAD; }
-git -C $WT checkout -q --detach $(git -C /repo rev-parse HEAD) 2>/dev/null; git -C $WT checkout -q -- . ; cp /repo/src/qutip_qip/version.py $WT/src/qutip_qip/
-rsync -a --delete /verif/lean/ /tmp/lean-seed/
+PID=$1; PATCH=$(readlink -f "$2"); DEMO=${3:-}; [ -n "$DEMO" ] && DEMO=$(readlink -f "$DEMO")
+TAG=$$
+WT=/tmp/wt-seed-$TAG; LN=/tmp/lean-seed-$TAG
+git -C /repo worktree add -q --detach $WT HEAD
+cp /repo/src/qutip_qip/version.py $WT/src/qutip_qip/
+rsync -a --delete /verif/lean/ $LN/
 mkdir -p /tmp/seed-evidence /tmp/seed-replays
+cleanup() { git -C /repo worktree remove --force $WT 2>/dev/null; rm -rf $LN; }
+trap cleanup EXIT
 if [ -n "$DEMO" ]; then
   PYTHONPATH=$WT/src /venv/bin/python -W ignore $DEMO >/dev/null 2>&1; echo "demo on clean tree: exit $?"
 fi
@@ -16,6 +19,5 @@ if [ -n "$DEMO" ]; then
   PYTHONPATH=$WT/src /venv/bin/python -W ignore $DEMO >/dev/null 2>&1; echo "demo with change:   exit $?"
 fi
 cd /verif
-VERIF_REPO=$WT VERIF_LEAN=/tmp/lean-seed VERIF_EVIDENCE=/tmp/seed-evidence VERIF_REPLAYS=/tmp/seed-replays ./check $PID --tier quick 2>&1 | grep -v "^KNOWN-FINDING" | tail -6
+VERIF_REPO=$WT VERIF_LEAN=$LN VERIF_EVIDENCE=/tmp/seed-evidence VERIF_REPLAYS=/tmp/seed-replays ./check $PID --tier ${TIER:-quick} 2>&1 | grep -v "^KNOWN-FINDING" | tail -6
 echo "check exit: ${PIPESTATUS[0]}"
-git -C $WT checkout -q -- .
